@@ -389,8 +389,13 @@ impl NodeSpec {
     }
 }
 
+/// Called for every datagram delivered to a raw endpoint; returns true if it consumed it
+/// (otherwise the datagram is queued in the endpoint's mailbox). May call `raw_send*`.
+pub type Responder = Box<dyn FnMut(&World, SockId, &Dgram) -> bool>;
+
 pub struct World {
     pub sh: Arc<Shared>,
+    responder: std::cell::RefCell<Option<Responder>>,
 }
 
 static WORLD_ACTIVE: Mutex<bool> = Mutex::new(false);
@@ -432,7 +437,7 @@ impl World {
             sched_cv: Condvar::new(),
         });
         dht::verif::set_env(Some(sh.clone()));
-        World { sh }
+        World { sh, responder: std::cell::RefCell::new(None) }
     }
 
     pub fn now(&self) -> u64 {
@@ -457,6 +462,9 @@ impl World {
     pub fn counts(&self) -> (u64, u64) {
         let g = self.sh.lock();
         (g.sends, g.delivers)
+    }
+    pub fn set_responder(&self, f: Option<Responder>) {
+        *self.responder.borrow_mut() = f;
     }
     pub fn set_fault(&self, hook: Option<FaultHook>) {
         self.sh.lock().fault = hook;
@@ -699,10 +707,21 @@ impl World {
                 let key = s.q.keys().next().copied().expect("raw dgram");
                 let d = s.q.remove(&key).expect("raw dgram");
                 let to = s.addr;
-                s.mailbox.push_back((now, d.clone()));
                 g.delivers += 1;
                 if level == TraceLevel::Full {
                     g.trace.push(Ev::Deliver { t: now, seq: d.seq, to, from: d.from, bytes: d.bytes.clone() });
+                }
+                drop(g);
+                let mut handled = false;
+                if let Ok(mut slot) = self.responder.try_borrow_mut() {
+                    if let Some(f) = slot.as_mut() {
+                        handled = f(self, pick, &d);
+                    }
+                }
+                if !handled {
+                    if let Some(s) = self.sh.lock().socks.get_mut(&pick) {
+                        s.mailbox.push_back((now, d));
+                    }
                 }
                 Step::Raw(pick)
             }
@@ -837,6 +856,7 @@ impl World {
 
     /// Tear the world down: all node handles must have been dropped by the caller.
     pub fn shutdown(self) {
+        *self.responder.borrow_mut() = None;
         let socks: Vec<SockId> = {
             let mut g = self.sh.lock();
             g.fault = None;
